@@ -6,7 +6,7 @@ For every interpreted native: sweep argument tuples through `Interpreter(True, T
 `session` request: first program `bind_native(...)` of the natives under test, then one program per call) and report
 every disagreement where the driver did not abstain.
 
-  PYTHONPATH=/verif /venv/bin/python /tmp/agents2/LM/validate_natives.py [--only name,name] [--verbose] [--random N [SEED]] [--c19 SEED]
+  PYTHONPATH=/verif /venv/bin/python -m harness.validate_natives_agent [--only name,name] [--verbose] [--random N [SEED]] [--c19 SEED]
 """
 import itertools
 import os
@@ -20,7 +20,7 @@ sys.path.insert(0, '/verif')
 from harness import session as S      # noqa: E402
 from harness import core              # noqa: E402
 
-DRIVER = '/tmp/agents2/LM/lean/.lake/build/bin/driver'
+DRIVER = core.DRIVER
 BATCH = 250
 ABST_SAMPLES = int(os.environ.get("ABST_SAMPLES", "6"))
 FUEL = 20000
